@@ -466,8 +466,18 @@ class Impl:
                 ans = "raised"
             return ans, f"deliver {op['port']} {op['proto']} {1 if op['scan'] else 0}"
         if k == "frame":
+            if self.kind in ("router", "firewall"):
+                # Router.check_send_frame_to_session_manager: is a frame handed to the router's own software at all?
+                dst = op.get("dst") or ["iface1", "iface2", "other"][(op.get("port") or 0) % 3]
+                ips = [str(ni.ip_address) for ni in node.network_interface.values() if getattr(ni, "ip_address", None)]
+                dst_ip = {"iface1": ips[0], "iface2": ips[-1], "other": "8.8.8.8"}[dst]
+                frame = self._frame(op["hdr"], op["port"], self._payload(op["scan"]), dst_ip=dst_ip)
+                to_me = bool(node.ip_is_router_interface(frame.ip.dst_ip_address))
+                ans = f"ret {1 if node.check_send_frame_to_session_manager(frame) else 0}"
+                line = (f"rframe icmp {1 if to_me else 0}" if op["hdr"] == "icmp" else f"rframe {op['hdr']} {op['port']} {1 if to_me else 0}")
+                return ans, line
             if not self.is_host:
-                return None, None  # HostNode.receive_frame is what is modelled; routers/switches/firewalls forward frames (C08)
+                return None, None  # a switch floods frames, it hands none to software
             self.recv_log.clear()
             frame = self._frame(op["hdr"], op["port"], self._payload(op["scan"]))
             ignored = []
@@ -505,31 +515,31 @@ class Impl:
         from primaite.simulator.system.applications.nmap import PortScanPayload
         return PortScanPayload(ip_address="192.168.1.2", port=80, protocol="tcp", request=True)
 
-    def _frame(self, hdr: str, port: Optional[int], payload):
+    def _frame(self, hdr: str, port: Optional[int], payload, dst_ip: str = "192.168.1.2"):
         from primaite.simulator.network.protocols.icmp import ICMPPacket
         from primaite.simulator.network.transmission.data_link_layer import EthernetHeader, Frame
         from primaite.simulator.network.transmission.network_layer import IPPacket
         from primaite.simulator.network.transmission.transport_layer import TCPHeader, UDPHeader
-        eth = EthernetHeader(src_mac_addr="aa:bb:cc:dd:ee:ff", dst_mac_addr=self.node.network_interface[1].mac_address)
+        eth = EthernetHeader(src_mac_addr="aa:bb:cc:dd:ee:ff", dst_mac_addr=next(iter(self.node.network_interface.values())).mac_address)
         if hdr == "tcp":
-            return Frame(ethernet=eth, ip=IPPacket(src_ip_address="192.168.1.9", dst_ip_address="192.168.1.2", protocol="tcp"),
+            return Frame(ethernet=eth, ip=IPPacket(src_ip_address="192.168.1.9", dst_ip_address=dst_ip, protocol="tcp"),
                          tcp=TCPHeader(src_port=40000, dst_port=port), payload=payload)
         if hdr == "udp":
-            return Frame(ethernet=eth, ip=IPPacket(src_ip_address="192.168.1.9", dst_ip_address="192.168.1.2", protocol="udp"),
+            return Frame(ethernet=eth, ip=IPPacket(src_ip_address="192.168.1.9", dst_ip_address=dst_ip, protocol="udp"),
                          udp=UDPHeader(src_port=40000, dst_port=port), payload=payload)
-        return Frame(ethernet=eth, ip=IPPacket(src_ip_address="192.168.1.9", dst_ip_address="192.168.1.2", protocol="icmp"),
+        return Frame(ethernet=eth, ip=IPPacket(src_ip_address="192.168.1.9", dst_ip_address=dst_ip, protocol="icmp"),
                      icmp=ICMPPacket(), payload=payload)
 
 
 def make_node(kind: str, node_cfg: dict):
     """the node under test: a host (computer / server) or a network node (router / switch / firewall)"""
-    d = {"hostname": "n_" + kind, "start_up_duration": node_cfg["up"], "shut_down_duration": node_cfg["down"],
+    d = {"hostname": node_cfg.get("hostname", "n_" + kind), "start_up_duration": node_cfg["up"], "shut_down_duration": node_cfg["down"],
          "operating_state": node_cfg["power"]}
     if kind in ("computer", "server"):
         from primaite.simulator.network.hardware.nodes.host.computer import Computer
         from primaite.simulator.network.hardware.nodes.host.server import Server
         k = Computer if kind == "computer" else Server
-        return k.from_config(config={"type": kind, "ip_address": "192.168.1.2", "subnet_mask": "255.255.255.0", **d})
+        return k.from_config(config={"type": kind, "ip_address": node_cfg.get("ip", "192.168.1.2"), "subnet_mask": "255.255.255.0", **d})
     if kind == "switch":
         from primaite.simulator.network.hardware.nodes.network.switch import Switch
         return Switch.from_config({"type": "switch", "num_ports": 4, **d})
